@@ -354,6 +354,22 @@ func runExpr(c Case, res *pbt.Result) {
 		}
 	}
 	text := renderStyle(c.Expr, c.Lower)
+	applicable := []string{"select", "paren", "arg"}
+	if c.Expr.T == "b" {
+		applicable = allCtxs
+	}
+	for _, ctx := range applicable {
+		if !contains(c.Ctxs, ctx) {
+			res.Class("excluded@" + ctx)
+		}
+	}
+	if len(c.Ctxs) == 0 {
+		res.Class("excluded-entirely")
+	}
+	for _, e := range c.Excl {
+		name, _, _ := strings.Cut(strings.TrimSuffix(e, "~"), "@")
+		res.Count("excl:"+name, 1)
+	}
 	for _, ctx := range c.Ctxs {
 		sql := sqlFor(ctx, c)
 		a, err := open(sql)
